@@ -6,7 +6,7 @@ import re
 from vlib.gen_ir import NoneStr
 
 ABSENT = "<absent>"
-_DEFAULTS_RE = re.compile(r"\s*Defaults? to\b.*$", re.S)
+_DEFAULTS_RE = re.compile(r"\s*Defaults?\s+to\b.*$", re.S)
 
 
 def normdoc(d, strip_default=True):
